@@ -29,6 +29,17 @@ def callback_frames(tb):
     return False
 
 
+def from_user_code(e):
+    """Whether e, or an exception it replaced while being handled, came out of user code."""
+    seen = 0
+    while e is not None and seen < 8:
+        if callback_frames(e.__traceback__):
+            return True
+        e = e.__cause__ or e.__context__
+        seen += 1
+    return False
+
+
 def simple_source(doc, kind):
     if kind == 'str':
         return doc
@@ -58,7 +69,7 @@ def call(thunk, faults=None, norm=None, retain=None, graph=False):
         except Exception as e:
             name, toks = canon.canon_exc(e, norm)
             out = {'status': 'exc', 'exc': name, 'msg': toks,
-                   'from_callback': callback_frames(e.__traceback__),
+                   'from_callback': from_user_code(e),
                    'contained': classify_exc(e),
                    'text': (norm(str(e)) if norm else str(e))[:300]}
             if retain is not None:
